@@ -440,7 +440,20 @@ Definition go_data_Point_CRC : list hstep :=
   HSum32].
 
 (* ---------- client ---------- *)
-(* client.cobsEncode is outside the MiniGo slice fragment: /tmp/tp-21431/client/cobs-wrapper.go:158:4: statement *ast.BranchStmt *)
+Definition go_client_cobsEncode : sfunc := {| sf_name := "client.cobsEncode"; sf_params := [("p", (TU 8))]; sf_body :=
+ [TMake "ret" (TU 8) (XConst 1%Z);
+ TDecl "code" (TS 64) (XConst 0%Z);
+ TStore "ret" (XVar "code") (XConst 1%Z);
+ TRangeIV "_" "v" (TU 8) "p"
+ [TIf (XBin ONe TBool (XVar "v") (XConst 0%Z))
+ [TAppend "ret" (XVar "v");
+ TStore "ret" (XVar "code") (XBin OAdd (TU 8) (XIndex "ret" (XVar "code")) (XConst 1%Z))]
+ [];
+ TIf (XOrElse (XBin OEq TBool (XVar "v") (XConst 0%Z)) (XBin OEq TBool (XIndex "ret" (XVar "code")) (XConst 255%Z)))
+ [TAssign "code" (XLen "ret");
+ TAppend "ret" (XConst 1%Z)]
+ []];
+ TReturnApp "ret" (XConst 0%Z)] |}.
 
 (* ---------- store ---------- *)
 Definition go_store_NewSqliteDb_pragmas : list N := [95; 112; 114; 97; 103; 109; 97; 61; 102; 111; 114; 101; 105; 103; 110; 95; 107; 101; 121; 115; 40; 49; 41; 38; 95; 112; 114; 97; 103; 109; 97; 61; 106; 111; 117; 114; 110; 97; 108; 95; 109; 111; 100; 101; 40; 87; 65; 76; 41; 38; 95; 112; 114; 97; 103; 109; 97; 61; 115; 121; 110; 99; 104; 114; 111; 110; 111; 117; 115; 40; 78; 79; 82; 77; 65; 76; 41; 38; 95; 112; 114; 97; 103; 109; 97; 61; 98; 117; 115; 121; 95; 116; 105; 109; 101; 111; 117; 116; 40; 56; 48; 48; 48; 41; 38; 95; 112; 114; 97; 103; 109; 97; 61; 106; 111; 117; 114; 110; 97; 108; 95; 115; 105; 122; 101; 95; 108; 105; 109; 105; 116; 40; 49; 48; 48; 48; 48; 48; 48; 48; 48; 41]%N.   (* "_pragma=foreign_keys(1)&_pragma=journal_mode(WAL)&_pragma=synchronous(NORMAL)&_pragma=busy_timeout(8000)&_pragma=journal_size_limit(100000000)" *)
